@@ -7,6 +7,7 @@
   Spec: Nervus.Spec.IndexFree (the same history without its create_index calls answers alike).
 -/
 import Nervus.Proofs.IndexKey
+import Nervus.Proofs.IndexCatalog
 namespace Nervus.Props.C15
 open Nervus Nervus.OKey Nervus.Index
 
@@ -195,5 +196,61 @@ example : Transparent Cfg.current hLate ∧ Transparent Cfg.current hDeleted ∧
    C15_partial _ (by decide +kernel) (by decide +kernel) (by decide +kernel) (by decide +kernel),
    C15_partial _ (by decide +kernel) (by decide +kernel) (by decide +kernel) (by decide +kernel),
    C15_partial _ (by decide +kernel) (by decide +kernel) (by decide +kernel) (by decide +kernel)⟩
+
+/-! ### the index roots survive reopen, whatever operation moved them
+
+`Model/Index.reopen` keeps every index's content: it assumes that the roots `GraphEngine::open` reads
+from the catalog page are the roots the engine was using.  That assumption is this theorem (over
+`Model/IndexCatalog`: any operations, any root movements, the flush condition regenerated from the
+"Apply Index Updates" block of `commit`). -/
+
+section catalog
+open Nervus.IndexCatalog
+
+/-- the catalog page is written unconditionally after the index operations of a commit, or under a
+    flag that accumulates `tree.root() != re.root` after every insert (regenerated; the recogniser
+    fails on shapes it does not know) — and `create_index` records the root after its backfill -/
+theorem catalog_flush_sound : (Flush.current = .always ∨ Flush.current = .anyMoved) ∧
+    backfillRecordsRoot = true := by decide
+
+/-- **catalog_roots_durable**: after EVERY event of EVERY history — commits with any number of
+    index operations on any indexes whose deletes and inserts move the roots anywhere (any oracle for
+    the B-tree), index creations with backfills that move the root, reopens — the on-disk root of
+    every index equals the in-memory root; so a reopen changes no root -/
+theorem catalog_roots_durable (evs : List Ev) :
+    (IndexCatalog.run Flush.current backfillRecordsRoot evs).disk =
+      (IndexCatalog.run Flush.current backfillRecordsRoot evs).mem ∧
+    IndexCatalog.reopen (IndexCatalog.run Flush.current backfillRecordsRoot evs) =
+      IndexCatalog.run Flush.current backfillRecordsRoot evs := by
+  have h := run_synced Flush.current catalog_flush_sound.1 evs ⟨[], []⟩ rfl
+  rw [catalog_flush_sound.2]
+  refine ⟨h, ?_⟩
+  unfold IndexCatalog.reopen IndexCatalog.run
+  generalize List.foldl (IndexCatalog.step Flush.current true) ⟨[], []⟩ evs = c at h
+  obtain ⟨m, d⟩ := c
+  simp only at h
+  subst h; rfl
+
+/-- C15-seed2's shape (`root_moved = …`, plain assignment): a root split by a non-last operation of
+    the commit is lost — the disk keeps root 10 while the engine uses 11 -/
+theorem counterexample_flush_last_op_only :
+    let c := IndexCatalog.run .lastMoved true
+      [.createIndex 3 10 10, .commit [⟨3, 10, 11⟩, ⟨3, 11, 11⟩]]
+    c.mem = [(3, 11)] ∧ c.disk = [(3, 10)] ∧ (IndexCatalog.reopen c).mem = [(3, 10)] := by decide
+
+/-- C18-seed2's shape (flag computed before the insert of an Update): a split during a SET on an
+    existing node is lost -/
+theorem counterexample_flush_flag_before_insert :
+    let c := IndexCatalog.run .beforeInsert true
+      [.createIndex 3 10 10, .commit [⟨3, 10, 11⟩]]
+    c.mem = [(3, 11)] ∧ c.disk = [(3, 10)] := by decide
+
+/-- non-vacuity: the same two histories under the current policy -/
+example :
+    (IndexCatalog.run Flush.current backfillRecordsRoot
+      [.createIndex 3 10 12, .commit [⟨3, 12, 13⟩, ⟨3, 13, 13⟩, ⟨4, 0, 0⟩], .reopen, .commit [⟨3, 13, 14⟩]]).disk
+      = [(3, 14)] := by decide
+
+end catalog
 
 end Nervus.Props.C15
